@@ -18,7 +18,8 @@ RULE = ('arrays and loaded samples (0..N events, integer and float) with values 
         'channel forms x parameters (counts incl. negative, 0, N, N+1; thresholds explicit/partial/default; ellipse '
         'centre/axes/angle in [-2pi,2pi]/log with points generated on, just inside and just outside the ellipse); '
         'non-trivial = some event lies exactly on a threshold / within 1e-6 of the ellipse, or count is a boundary '
-        'value; distinct = digest(data, call)')
+        'value; distinct = digest(data, call)'
+        ' Also: NaN and infinite events, derived and RFI samples, tuple/ndarray argument forms.')
 ASSUMPTIONS = ['ellipse boundary band |q-1| <= 1e-9 is excluded from the verdict (counted as ellipse_boundary_events)']
 MIN_CHECKS = {'quick': 10000, 'thorough': 200000}
 REQUIRED_COUNTERS = ['chk:start_end', 'chk:high_low', 'chk:ellipse', 'chk:short-vs-long', 'chk:refusal', 'chk:form']
